@@ -424,7 +424,7 @@ fn main() {
     }
     if args.case.is_none() {
         let mut rng = Rng::new(args.seed);
-        let n = args.n.unwrap_or(if args.thorough() { 6000 } else { 600 });
+        let n = args.n.unwrap_or(if args.thorough() { 2500 } else { 600 });
         // exhaustive short histories over a reduced alphabet (thorough only)
         if args.thorough() {
             let alpha: Vec<Op> = vec![
@@ -438,7 +438,7 @@ fn main() {
                 Op::Drain,
             ];
             let mut idx = 0usize;
-            for len in 1..=4usize {
+            for len in 1..=3usize {
                 let total = alpha.len().pow(len as u32);
                 for code in 0..total {
                     let mut c = code;
@@ -456,7 +456,7 @@ fn main() {
         }
         for i in 0..n {
             let mut r = rng.fork();
-            let max_len = if args.thorough() && i % 10 == 0 { 400 } else { 60 };
+            let max_len = if args.thorough() && i % 10 == 0 { 200 } else { 60 };
             let ops = gen_case(&mut r, max_len);
             emit_case(&mut em, format!("gen-{i}"), ops);
         }
